@@ -19,6 +19,7 @@ OPS = {1: 'new', 2: 'copy', 3: 'freeze', 4: 'thaw', 5: 'setattr', 6: 'hash', 7: 
        8: 'thaw_none', 9: 'hashf', 10: 'delattr', 11: 'setnew', 12: 'hashd'}
 BAD = 999
 TWIN = 777
+INF = 888
 
 
 def xval(cls, x):
@@ -38,6 +39,8 @@ def xval(cls, x):
 
 def construct(cls, x, t, unchecked=False):
     import mido
+    if t == INF:
+        t = float('inf')
     name, v = xval(cls, x)
     if unchecked and cls == 'M':
         return mido.Message('note_on', note=v, time=t, skip_checks=True)
@@ -54,6 +57,10 @@ def construct(cls, x, t, unchecked=False):
     if cls == 'SS':
         return mido.MetaMessage('sequencer_specific', data=v, time=t)
     return mido.UnknownMetaMessage(0x60, data=v, time=t)
+
+
+def _t(t):
+    return INF if t == float('inf') else t
 
 
 def describe(o):
@@ -76,24 +83,24 @@ def _describe(o):
         if base == 'Message' and o.type == 'clock':
             if set(vars(o)) != {'type', 'time'}:
                 return 'unexpected %s' % core.srepr(vars(o))
-            return (5, fr, 1, o.time)
+            return (5, fr, 1, _t(o.time))
         if base == 'Message' and o.type == 'sysex':
             if type(o.data).__name__ != 'SysexData' or len(o.data) != 1:
                 return 'sysex data is %s %r' % (type(o.data).__name__, o.data)
-            return (6, fr, o.data[0], o.time)
+            return (6, fr, o.data[0], _t(o.time))
         if base == 'Message':
             if o.type != 'note_on' or o.channel != 0 or o.velocity != 64:
                 return 'unexpected %s' % core.srepr(o)
-            return (1, fr, o.note, o.time)
+            return (1, fr, o.note, _t(o.time))
         if base == 'UnknownMetaMessage':
             if o.type_byte != 0x60 or len(o.data) != 1:
                 return 'unexpected %s' % core.srepr(o)
-            return (4, fr, o.data[0], o.time)
+            return (4, fr, o.data[0], _t(o.time))
         if base == 'MetaMessage':
             if o.type == 'set_tempo':
-                return (2, fr, BAD if o.tempo == (1 << 24) else o.tempo, o.time)
+                return (2, fr, BAD if o.tempo == (1 << 24) else o.tempo, _t(o.time))
             if o.type == 'sequencer_specific' and len(o.data) == 1:
-                return (3, fr, o.data[0], o.time)
+                return (3, fr, o.data[0], _t(o.time))
     except Exception as e:
         return 'cannot read %r: %r' % (name, e)
     return 'unexpected object %s' % core.srepr(o)
@@ -208,7 +215,7 @@ def replay_history(steps):
                 if isinstance(describe(o), str):
                     return 'heap-mismatch/setattr', '%s: %s' % (where, describe(o))
                 c = CLS[describe(o)[0]]
-                name, val = xval(c, v) if attr == 'x' else ('time', v)
+                name, val = xval(c, v) if attr == 'x' else ('time', float('inf') if v == INF else v)
                 try:
                     setattr(o, name, val)
                     got_ok = True
@@ -268,7 +275,9 @@ def replay_history(steps):
                 if isinstance(d, str):
                     return 'heap-mismatch/hashf', '%s: %s' % (where, d)
                 t = d[3]
-                other_t = int(t) if isinstance(t, float) else float(t)
+                if t == INF:
+                    t = float('inf')
+                other_t = t if t == float('inf') else int(t) if isinstance(t, float) else float(t)
                 b = freeze_message(construct(CLS[d[0]], d[2], other_t))
                 if not (a == b):
                     return 'equal-frozen-not-equal', '%s: %s != %s' % (where, core.srepr(a), core.srepr(b))
@@ -309,6 +318,41 @@ def replay_history(steps):
     return None
 
 
+def check_text_values():
+    """Value semantics for text meta messages whatever the text: a message read from a utf-8
+    file lives on outside that file's load call."""
+    import io
+    import mido
+    from mido.frozen import freeze_message, thaw_message
+    out = []
+    for text in ('\u20ac \u266a', '\u65e5\u672c', 'caf\xe9', ''):
+        try:
+            src = mido.MidiFile(charset='utf-8')
+            src.tracks.append(mido.MidiTrack([mido.MetaMessage('lyrics', text='x', time=1)]))
+            data = io.BytesIO()
+            src.save(file=data)
+            raw = data.getvalue().replace(b'\x01x', bytes([len(text.encode('utf-8'))]) + text.encode('utf-8'))
+            raw = raw[:18] + (len(raw) - 22).to_bytes(4, 'big') + raw[22:]
+            m = mido.MidiFile(file=io.BytesIO(raw), charset='utf-8').tracks[0][0]
+            if m.text != text:
+                out.append(('text-meta/load', 'loaded %r expected %r' % (m.text, text)))
+                continue
+            c1, c2, c3 = m.copy(), m.copy(time=9), m.copy(text=text + '!')
+            f = freeze_message(m)
+            t = thaw_message(f)
+            ok = (c1 == m and c1 is not m and c2.text == text and c2.time == 9 and c3.text == text + '!' and
+                  f == m and t == m and hash(f) == hash(freeze_message(c1)) and {f: 1}[freeze_message(t)] == 1 and
+                  f.copy(time=4).time == 4)
+            c1.text = 'changed'
+            ok = ok and m.text == text
+        except Exception as e:
+            out.append(('text-meta/raises/%s' % type(e).__name__, 'text %r: %r' % (text, e)))
+            continue
+        if not ok:
+            out.append(('text-meta/value', 'copy / freeze / thaw of a lyrics message with text %r are not value copies' % (text,)))
+    return out[:3]
+
+
 def worker(lines):
     res = {'n': 0, 'viol': [], 'samples': [], 'counts': {}}
     for line in lines:
@@ -325,6 +369,9 @@ def worker(lines):
 
 
 def replay(case):
+    if case.get('kind') == 'text_values':
+        v = check_text_values()
+        return v and '%s: %s' % v[0]
     steps = [(s[0], s[1], s[2], s[3], s[4], s[5], s[6], [tuple(h) for h in s[7]]) for s in case['steps']]
     r = replay_history(steps)
     return r and '%s: %s' % r
@@ -384,6 +431,9 @@ def run(ctx):
         'classes are represented by note_on, set_tempo, sequencer_specific and UnknownMetaMessage(0x60); values by {1, 2} plus one out-of-range value',
         'copy with overrides is judged against constructing the class afresh with the merged values (UnknownMetaMessage validates nothing)',
     ]
+    for key, msg in check_text_values():
+        ctx.violation('value/' + key, {'kind': 'text_values'}, msg)
+    ctx.replayed += 4
     # re-entrancy: two threads inside these functions at once, a switch possible before every statement
     from .. import conc
     conc.run_scenarios(ctx, 'C15', 2 if ctx.tier == 'thorough' else 1)
